@@ -12,9 +12,9 @@ import builtins as _pybuiltins
 
 import z3
 
-from . import extract
+from . import extract, fparith
 from .contracts import Args, Case, Contract, HeapView, LoopSpec, World
-from .core import (ANY, BOOL, BREAK, BYTES, CONTINUE, FLOAT, FUNCT, INT, MAP, NEXT, NONE, NONEV, OPT, RAISE, REF,
+from .core import (ANY, BOOL, BREAK, BYTES, CONTINUE, CPX, FLOAT, FUNCT, INT, MAP, NEXT, NONE, NONEV, OPT, RAISE, REF,
                    RETURN, SEQ, SETT, STR, SV, TUP, ExcV, Heap, Obligation, State, Ty, U, Unsupported, coerce, eq_sv,
                    fresh, fresh_name, ite_sv, mk_bool, mk_bytes, mk_int, mk_opt_none, mk_opt_some, mk_str, mk_tuple,
                    null_ref, unflat, zstr)
@@ -263,9 +263,9 @@ class Executor:
         if isinstance(v, tuple):
             return mk_tuple([self.lit(x) for x in v])
         if isinstance(v, float):
-            import struct
-
-            return SV(FLOAT, z3.IntVal(int.from_bytes(struct.pack("!d", v), "big")))
+            return SV(FLOAT, fparith.lit_bits(v))
+        if isinstance(v, complex):
+            return SV(CPX(FLOAT, FLOAT), (SV(FLOAT, fparith.lit_bits(v.real)), SV(FLOAT, fparith.lit_bits(v.imag))))
         raise Unsupported(f"literal {v!r}")
 
     # ------------------------------------------------------------------
@@ -458,6 +458,14 @@ class Executor:
         if isinstance(op, ast.Mod) and ka == "bytes":
             yield st, fresh(BYTES, "fmt")
             return
+        if fparith.is_floaty(a) or fparith.is_floaty(b):
+            r, facts = fparith.binop(op, a, b)
+            if facts:
+                st = st.fork()
+                for f in facts:
+                    st.assume(f)
+            yield st, r
+            return
         if ka in num and kb in num:
             x, y = coerce(a, INT).v, coerce(b, INT).v
             if isinstance(op, ast.Add):
@@ -578,6 +586,11 @@ class Executor:
                 e = eq_sv(a, b)
             elif "none" in (ka, kb):
                 e = z3.BoolVal(False)
+            elif ka == kb and ka in ("str", "bytes", "int", "float"):
+                # identity of immutable values is not determined by their value (interning, caching): an unspecified
+                # boolean that can only be true when the values are equal
+                e = z3.FreshConst(z3.BoolSort(), "same_object")
+                st = st.fork().assume(z3.Implies(e, eq_sv(a, b)))
             else:
                 raise Unsupported(f"`is` on {a.ty!r},{b.ty!r}")
             yield st, (e if isinstance(op, ast.Is) else z3.Not(e))
@@ -592,6 +605,15 @@ class Executor:
             e = None
             if kb in ("str", "bytes") and ka == kb:
                 e = z3.Contains(b.v, a.v)
+            elif kb == "seq" and b.ty.elem.kind == "ref" and ka in ("str", "bytes", "int", "bool", "float"):
+                # `"name" in [obj, ...]`: list membership compares with ==, which for a class without __eq__ (object's identity comparison) is never true for a str/number
+                cls = b.ty.elem.cls
+                if cls not in self.w.class_home:
+                    raise Unsupported(f"`in`: {a.ty!r} in a list of {cls} (class not from the repository)")
+                for c in self.class_mro(ClassD(cls, extract.load(self.w.class_home[cls]))):
+                    if c.module is not None and f"{c.name}.__eq__" in c.module.functions:
+                        raise Unsupported(f"`in`: {a.ty!r} in a list of {cls}, which defines __eq__")
+                e = z3.BoolVal(False)
             elif kb == "seq":
                 e = z3.Contains(b.v, z3.Unit(coerce(a, b.ty.elem).t))
             elif kb == "tuple":
